@@ -76,12 +76,12 @@ var placeholderRe = regexp.MustCompile(`\{\{([^}]+)\}\}`)
 func doReplay(w *World, prop string, o *Obligation, dir string) (string, bool) {
 	meta := replayMeta{Property: prop, Obligation: o.Name, Function: o.Func, Clause: o.Text, Position: o.Pos, Verdict: o.Result, Backend: o.Backend}
 	rp := filepath.Join(dir, mangle(o.Name)+".json")
-	if o.Result == "sat" {
+	if o.ModelQuery != "" {
 		meta.Values = parseModel(o.Model)
 	}
 	meta.Solver = truncate(o.Model, 20000)
 	confirmed := false
-	if tpath, tmpl, ok := templateFor(o.Func); ok && o.Result == "sat" {
+	if tpath, tmpl, ok := templateFor(o.Func); ok && o.ModelQuery != "" {
 		meta.Template = tpath
 		confirmed = runTemplate(w, &meta, tmpl, dir, o)
 	}
@@ -109,8 +109,22 @@ func runTemplate(w *World, meta *replayMeta, tmpl string, dir string, o *Obligat
 		return false
 	}
 	missing := false
+	evals := evalTerms(tmpl, o)
 	src := placeholderRe.ReplaceAllStringFunc(tmpl, func(m string) string {
 		spec := strings.TrimSpace(m[2 : len(m)-2])
+		if v, ok := evals[spec]; ok {
+			return v
+		}
+		if strings.HasPrefix(spec, "int:") || strings.HasPrefix(spec, "bool:") || strings.HasPrefix(spec, "str:") {
+			missing = true
+			switch {
+			case strings.HasPrefix(spec, "int:"):
+				return "0"
+			case strings.HasPrefix(spec, "bool:"):
+				return "false"
+			}
+			return `""`
+		}
 		// {{name|default}}
 		def := ""
 		if i := strings.Index(spec, "|"); i >= 0 {
@@ -207,4 +221,158 @@ func replayMain(prop, path string) int {
 		return 1
 	}
 	return 0
+}
+
+// evalTerms evaluates the {{int:T}}, {{bool:T}}, {{str:T}} placeholders of a template in the model of the
+// obligation's query, using (get-value).
+func evalTerms(tmpl string, o *Obligation) map[string]string {
+	out := map[string]string{}
+	if o.ModelQuery == "" {
+		return out
+	}
+	var specs []string
+	seen := map[string]bool{}
+	for _, m := range placeholderRe.FindAllString(tmpl, -1) {
+		spec := strings.TrimSpace(m[2 : len(m)-2])
+		if (strings.HasPrefix(spec, "int:") || strings.HasPrefix(spec, "bool:") || strings.HasPrefix(spec, "str:")) && !seen[spec] {
+			seen[spec] = true
+			specs = append(specs, spec)
+		}
+	}
+	if len(specs) == 0 {
+		return out
+	}
+	var lits []string
+	for sym := range o.StrLits {
+		if strings.Contains(o.ModelQuery, "(declare-fun "+sym+" ") {
+			lits = append(lits, sym)
+		}
+	}
+	evalOne := func(terms []string) []string {
+		q := "(set-option :produce-models true)\n" + strings.Replace(o.ModelQuery, "(check-sat)", "(check-sat)\n(get-value ("+strings.Join(terms, " ")+"))", 1)
+		r := runSolver(solvers[0], q, 20)
+		if r.verdict != "sat" {
+			return nil
+		}
+		i := strings.Index(r.output, "(")
+		if i < 0 {
+			return nil
+		}
+		sx := parseSexp(r.output[i:])
+		if sx == nil || len(sx.kids) != len(terms) {
+			return nil
+		}
+		var vals []string
+		for _, k := range sx.kids {
+			if len(k.kids) < 2 {
+				return nil
+			}
+			vals = append(vals, k.kids[len(k.kids)-1].String())
+		}
+		return vals
+	}
+	// evaluate each placeholder separately so that one ill-formed term does not spoil the others
+	litVals := map[string]string{}
+	if len(lits) > 0 {
+		if vs := evalOne(lits); vs != nil {
+			for i, l := range lits {
+				litVals[vs[i]] = o.StrLits[l]
+			}
+		}
+	}
+	for _, spec := range specs {
+		i := strings.Index(spec, ":")
+		kind, term := spec[:i], spec[i+1:]
+		terms := []string{term}
+		if kind == "str" {
+			terms = append(terms, "(str.len "+term+")")
+		}
+		vs := evalOne(terms)
+		if vs == nil {
+			continue
+		}
+		switch kind {
+		case "int":
+			v := vs[0]
+			if strings.HasPrefix(v, "(- ") {
+				v = "-" + strings.TrimSuffix(strings.TrimPrefix(v, "(- "), ")")
+			}
+			out[spec] = v
+		case "bool":
+			out[spec] = vs[0]
+		case "str":
+			if text, ok := litVals[vs[0]]; ok {
+				out[spec] = fmt.Sprintf("%q", text)
+			} else {
+				// a string different from every literal of the function and its contracts
+				out[spec] = fmt.Sprintf("%q", "govc-other-"+mangle(vs[0]))
+			}
+		}
+	}
+	return out
+}
+
+type sexp struct {
+	atom string
+	kids []*sexp
+}
+
+func (s *sexp) String() string {
+	if s.kids == nil && s.atom != "" {
+		return s.atom
+	}
+	var ps []string
+	for _, k := range s.kids {
+		ps = append(ps, k.String())
+	}
+	return "(" + strings.Join(ps, " ") + ")"
+}
+
+func parseSexp(in string) *sexp {
+	pos := 0
+	var parse func() *sexp
+	skip := func() {
+		for pos < len(in) && (in[pos] == ' ' || in[pos] == '\n' || in[pos] == '\t' || in[pos] == '\r') {
+			pos++
+		}
+	}
+	parse = func() *sexp {
+		skip()
+		if pos >= len(in) {
+			return nil
+		}
+		if in[pos] == '(' {
+			pos++
+			n := &sexp{kids: []*sexp{}}
+			for {
+				skip()
+				if pos >= len(in) {
+					return n
+				}
+				if in[pos] == ')' {
+					pos++
+					return n
+				}
+				k := parse()
+				if k == nil {
+					return n
+				}
+				n.kids = append(n.kids, k)
+			}
+		}
+		start := pos
+		if in[pos] == '|' {
+			pos++
+			for pos < len(in) && in[pos] != '|' {
+				pos++
+			}
+			pos++
+			return &sexp{atom: in[start:pos]}
+		}
+		for pos < len(in) && in[pos] != ' ' && in[pos] != '\n' && in[pos] != ')' && in[pos] != '(' && in[pos] != '\t' {
+			pos++
+		}
+		return &sexp{atom: in[start:pos]}
+	}
+	return parse()
 }
